@@ -27,8 +27,8 @@ def Acc.apply (a : Acc) (val : Int) (cnt : Nat) : Acc :=
   match a.kind with
   | .counter => { a with stats := a.stats + cnt, count := a.count + cnt }
   | .sum | .avg => { a with stats := a.stats + val, count := a.count + cnt }
-  | .min => { a with stats := if a.stats > val || a.stats == -1000 then val else a.stats, count := a.count + cnt }
-  | .max => { a with stats := if a.stats < val then val else a.stats, count := a.count + cnt }
+  | .min => { a with stats := if cnt > 0 && (a.count == 0 || a.stats > val) then val else a.stats, count := a.count + cnt }
+  | .max => { a with stats := if cnt > 0 && (a.count == 0 || a.stats < val) then val else a.stats, count := a.count + cnt }
 
 def AggKind.acc : AggKind → AccKind
   | .sum => .sum | .avg => .avg | .min => .min | .max => .max
@@ -59,7 +59,8 @@ inductive SNode
 
 /-- `Filter.Equals` on leaves: column identity, operator, string value, float value (not: customTag, isEmpty) -/
 def Leaf.equalsGo (a b : Leaf) : Bool :=
-  a.col.name == b.col.name && a.col.name != "empty" && a.op == b.op && a.sval == b.sval && a.num == b.num
+  a.col.name == b.col.name && a.col.name != "empty" && a.op == b.op && a.sval == b.sval && a.num == b.num &&
+  a.tag == b.tag && a.isEmpty == b.isEmpty
 
 mutual
   /-- `Filter.Equals` -/
@@ -73,9 +74,9 @@ mutual
     | _, _ => false
 end
 
-/-- is this entry a candidate for grouping: a counter that is a group with at least two children -/
+/-- `isGroupableStats`: a non-negated `StatsAnd` counter with at least two terms whose first term is a leaf -/
 def groupable : SNode → Option (Nat × Bool × Filter × List Filter × Bool)
-  | .counter pos (.grp isAnd (f :: g :: rest) neg) => some (pos, isAnd, f, g :: rest, neg)
+  | .counter pos (.grp true (.leaf l n :: g :: rest) false) => some (pos, true, .leaf l n, g :: rest, false)
   | _ => none
 
 /-- `removeFirstStatsFilter`: strip the first term; a single remaining term replaces the group
@@ -121,7 +122,8 @@ def optLoop (rec : List SNode → Option (List SNode)) : List SNode → OptState
         | some gi =>
           match st.grouped[gi]?, first with
           | some (.sgroup c n subs), .leaf fl fn =>
-            if c.col.name == fl.col.name && c.col.name != "empty" && c.op == fl.op && c.sval == fl.sval && n == fn then
+            if c.col.name == fl.col.name && c.col.name != "empty" && c.op == fl.op && c.sval == fl.sval && n == fn &&
+               c.tag == fl.tag && c.isEmpty == fl.isEmpty then
               some { st with grouped := setAt st.grouped gi (.sgroup c n (subs ++ [removeFirst pos isAnd others neg])) }
             else none
           | _, _ => none
